@@ -273,7 +273,32 @@ def witness_scope_creation_fresh_layer(prog, fn: ast.AST) -> bool:
     d = dict(zip([norm(k) for k in dicts[0].value.keys], dicts[0].value.values))
     if norm(d.get("'scope'")) != "Scope()" or norm(d.get("'attrpath_order'")) != "[]":
         return False
-    fmt = [n for n in cfg.nodes if n.kind == "stmt" and "_format_npath_segments(" in norm(n.ast)]
+    rts = prog.funcs.get("_resolve_target_set")
+    declared = rts is not None and rts.node.returns is not None and norm(rts.node.returns) == "AttributeSet"
+    defs = [n for n in ast.walk(fn) if isinstance(n, ast.Assign) and norm(n.targets[0]) == target]
+    from_resolver = bool(defs) and all(isinstance(d_.value, ast.Call) and callee(d_.value) == "_resolve_target_set" for d_ in defs)
+    always = f"isinstance({target}, AttributeSet)"  # holds by the declared result type of _resolve_target_set
+
+    def evaluates_fmt(n) -> bool:
+        """the statement / test evaluates the formatting call whenever it runs (in `A and f(fmt(…))` only operands that always
+        hold may stand before it)"""
+        if "_format_npath_segments(" not in norm(n.ast):
+            return False
+        if n.kind == "stmt":
+            return True
+        if n.kind != "test":
+            return False
+        t = n.ast
+        if isinstance(t, ast.BoolOp) and isinstance(t.op, ast.And):
+            for v in t.values:
+                if "_format_npath_segments(" in norm(v):
+                    return True
+                if not (norm(v) == always and declared and from_resolver):
+                    return False
+            return False
+        return not isinstance(t, ast.BoolOp)
+
+    fmt = [n for n in cfg.nodes if n.ast is not None and evaluates_fmt(n)]
     muts = [n for n in cfg.nodes if n.kind == "stmt" and norm(n.ast) == f"{target}.before = []"]
     if not fmt or not muts:
         return False
@@ -281,11 +306,7 @@ def witness_scope_creation_fresh_layer(prog, fn: ast.AST) -> bool:
         return True
     # the formatting call sits under `isinstance(target, AttributeSet)`, which always holds because
     # target is the result of _resolve_target_set (declared `-> AttributeSet`)
-    tests = [(n, False) for n in cfg.nodes if n.kind == "test" and norm(n.ast) == f"isinstance({target}, AttributeSet)"]
-    rts = prog.funcs.get("_resolve_target_set")
-    declared = rts is not None and rts.node.returns is not None and norm(rts.node.returns) == "AttributeSet"
-    defs = [n for n in ast.walk(fn) if isinstance(n, ast.Assign) and norm(n.targets[0]) == target]
-    from_resolver = bool(defs) and all(isinstance(d_.value, ast.Call) and callee(d_.value) == "_resolve_target_set" for d_ in defs)
+    tests = [(n, False) for n in cfg.nodes if n.kind == "test" and norm(n.ast) == always]
     return bool(tests) and declared and from_resolver and cfg.all_paths_pass(muts[0], cut_nodes=fmt, cut_edges=tests)
 
 
